@@ -56,15 +56,28 @@ def r03_1(ctx):
 def r03_2(ctx):
     rep, model = ctx.rep, ctx.model
     rep.rule("R03.2", "multi-piece aggregation of W, U (through H) and A equals the Chen composition of the pieces")
-    for n in ((1, 2, 3) if ctx.tier == "quick" else (1, 2, 3, 4, 5)):
+    # time scales of the representative ordering: pieces much longer than the tolerance; pieces of exactly one tolerance
+    # cell (two distinct resolved times one `tol` apart are a genuine interval, not a zero-length query); pieces shorter
+    # than a tolerance that is coarser than its own rounding grid (tol = 5e-3 rounds to 1e-3: two cells are 2e-3 < tol)
+    scales = [("", None, None), ("::one-tolerance-cell", Fraction(1, 1000), Fraction(1, 1000)),
+              ("::below-a-coarse-tolerance", Fraction(2, 1000), Fraction(5, 1000))]
+    cases = [(n, sc) for n in ((1, 2, 3) if ctx.tier == "quick" else (1, 2, 3, 4, 5)) for sc in scales[:1]]
+    cases += [(n, sc) for n in (1, 2) for sc in scales[1:]]
+    for n, (tag, step, tol) in cases:
         for have_H, have_A in ((True, True), (True, False), (False, False)):
-            r = bk.eval_call(model, n, have_H, have_A, return_U=have_H, return_A=have_A)
+            hooks = None
+            if step is not None:
+                hooks = bk.BrownianHooks()
+                hooks.ordering = {"T0": Fraction(0), "ta": Fraction(1), "T1": Fraction(100), "TOL": tol, "DT": Fraction(1, 7),
+                                  "TREE_DT": Fraction(1), "tb": 1 + n * step}
+                hooks.ordering.update({f"u{i}": 1 + i * step for i in range(1, n)})
+            r = bk.eval_call(model, n, have_H, have_A, return_U=have_H, return_A=have_A, hooks=hooks)
             fi = r["fi"]
             rep.analysed(fi)
             out = r["out"]
             out = out if isinstance(out, tuple) else (out,)
             ref = bk.chen_reference(r["cuts"], n, have_H, have_A)
-            base = f"{fi.key}::R03.2::{n}-pieces::{'H' if have_H else 'noH'}{'A' if have_A else ''}"
+            base = f"{fi.key}::R03.2::{n}-pieces::{'H' if have_H else 'noH'}{'A' if have_A else ''}{tag}"
             want = [("W", ref["W"])]
             if have_H:
                 want.append(("U", (r["tb"] - r["ta"]) * (ref["W"] * Fraction(1, 2) + ref["H"])))
@@ -88,7 +101,7 @@ def r03_2(ctx):
                 nf.equal(r["loc_calls"][0][1], r["tb"])
             rep.check(ok_loc, "R03.2", astq.loc(fi), f"{base}::loc-args",
                       f"the tree search is called with {r['loc_calls']}, not with the query (ta, tb)", "_loc(ta, tb)")
-    ctx.floor("R03.2", 20)
+    ctx.floor("R03.2", 40)
 
 
 def r03_4(ctx):
